@@ -34,7 +34,8 @@ VARIABLES file, out, ver, last, steps
 vars == <<file, out, ver, last, steps>>
 
 NoAct == <<"none", "", 0>>
-V == Versions[ver]
+PV == [k \in 1..Len(Versions) |-> Prep(Versions[k])]    \* constant: evaluated once
+V == PV[ver]
 
 Init ==
   /\ file = EmptyFile
@@ -88,11 +89,12 @@ Spec == Init /\ [][Next]_vars
 -----------------------------------------------------------------------------
 (* The denoted bags of the version an action ran in: LSem!Den evaluates     *)
 (* every predicate from the rules alone - no file, no annotations.          *)
-DenOf(k) == Den(Versions[k].prog)
+DenAll == [k \in 1..Len(Versions) |-> Den(Versions[k].prog)]   \* constant: evaluated once
+DenOf(k) == DenAll[k]
 
 LastIsRun == last.act[1] = "Run"
 LastP == last.act[2]
-LastV == Versions[last.act[3]]
+LastV == PV[last.act[3]]
 
 (* After Run(p): the table of every grounded predicate below p holds        *)
 (* exactly the bag that predicate denotes, and the returned rows are the    *)
